@@ -346,6 +346,9 @@ impl ProofOutline {
         let mut forward_definitions = Vec::new();
         let mut backward_definitions = Vec::new();
 
+        // A definition must introduce a predicate that no earlier entry of the outline mentions
+        let mut lemma_predicates = IndexSet::new();
+
         for anf in specification.formulas {
             let anf = anf.replace_placeholders(placeholders);
             match anf.role {
@@ -354,6 +357,7 @@ impl ProofOutline {
                         .universal_closure_with_quantifier_joining()
                         .replace_placeholders(placeholders)
                         .try_into()?;
+                    lemma_predicates.extend(anf.formula.predicates());
                     match anf.direction {
                         fol::Direction::Universal => {
                             forward_lemmas.push(general_lemma.clone());
@@ -365,6 +369,9 @@ impl ProofOutline {
                 }
                 fol::Role::Definition => {
                     let predicate = anf.formula.definition(&taken_predicates)?;
+                    if lemma_predicates.contains(&predicate.data) {
+                        return Err(ProofOutlineError::TakenPredicate(predicate.data));
+                    }
                     taken_predicates.insert(predicate.data);
                     warnings.extend(predicate.warnings);
                     match anf.direction {
